@@ -84,6 +84,17 @@ class C01Box(Monitor):
             self._check_range(0, len(log), "whole log (unscoped evaluations present)")
         if tree is not None:
             self._scan_histories(tree)
+            for d in self.all_demes(tree):
+                if type(d).__name__ == "CMADeme" and not d.is_active:
+                    try:
+                        own = bool(d._cma_es.stop())
+                        out = not self.ctx.in_box(d._cma_es.mean)
+                    except Exception:
+                        continue
+                    if own:
+                        self.cov("cma_deme_ended_by_cma_es_own_stop")
+                        if out:
+                            self.cov("cma_deme_ended_by_cma_es_own_stop_with_the_distribution_mean_outside_the_box")
         res = self.ctx.result
         if res is not None:
             self.cov("minimize_x_checked")
